@@ -168,6 +168,10 @@ class Something(Abstract_thing):
         self.kind = kind
 
 
+class Nothing(DBC):
+    {L(s)}
+
+
 Default_text: str = constant_str(
     value="something",
     description={L(d)},
